@@ -369,3 +369,134 @@ def gen_grid_objects(r: random.Random, tl, keys: int, n_measures: int, hi: int, 
                 res[kind].append(dict(offset=t, column=c))
                 i += 1
     return res
+
+
+# ---------------------------------------------------------------- BMS (text first, C04)
+
+BMS_LAYOUTS = ["BMS", "BME", "BME", "PMS", "PMS_BME", "PMS_5B"]
+BMS_TXT = ["Song", "A B", "x", "Title 1", "cold breath", "曲", "ソース", "表示", "能力 ポップ", "日本語 タイトル", "ｶﾀｶﾅ", "A [ANOTHER]", "〜wave〜"]
+BMS_SUBDIV = [1, 2, 3, 4, 4, 6, 8, 8, 12, 16, 16, 24, 32, 48, 64, 96, 192, 5, 7, 9]
+B36 = "0123456789ABCDEFGHIJKLMNOPQRSTUVWXYZ"
+
+
+def _id36(n: int) -> bytes:
+    return (B36[n // 36] + B36[n % 36]).encode("ascii")
+
+
+def gen_bms_doc(r: random.Random, hi: int = 6, layout: str | None = None, odd_tempo_subdiv: bool = False) -> tuple[dict, str]:
+    from .ref.bms import LAYOUTS
+
+    layout = layout or r.choice(BMS_LAYOUTS)
+    lanes = list(LAYOUTS[layout].keys())
+    n_meas = r.randint(1, max(2, min(8, hi)))
+    wav_ids = [_id36(i) for i in r.sample(range(1, 200), r.choice([1, 2, 4, 6]))]
+    lnobj = None
+    if r.random() < 0.6:
+        lnobj = r.choice([b"ZZ", b"ZY", _id36(1000)])
+        wav_ids = [w for w in wav_ids if w != lnobj]
+    headers = []
+    enc = lambda s: s.encode("shift_jis")
+    headers.append([b"PLAYER", r.choice([b"1", b"3"])])
+    headers.append([b"GENRE", enc(r.choice(BMS_TXT))])
+    headers.append([b"TITLE", enc(r.choice(BMS_TXT))])
+    headers.append([b"ARTIST", enc(r.choice(BMS_TXT))])
+    headers.append([b"BPM", r.choice([b"120", b"150", b"173.5", b"60", b"200", b"87.25", b"300"])])
+    headers.append([b"PLAYLEVEL", r.choice([b"1", b"12", b"5", b"0"])])
+    for k, v in ((b"RANK", b"2"), (b"TOTAL", b"300"), (b"STAGEFILE", enc("背景.png")), (b"SUBTITLE", b"[x]"), (b"DIFFICULTY", b"3"), (b"LNTYPE", b"1")):
+        if r.random() < 0.4:
+            headers.append([k, v])
+    if lnobj:
+        headers.append([b"LNOBJ", lnobj])
+    ex_ids = [_id36(i) for i in r.sample(range(1, 100), r.choice([0, 1, 2, 3]))]
+    ex_vals = {}
+    for e in ex_ids:
+        v = r.choice(["120", "240.5", "60.25", "333.333", "90", "1000", "45.125"])
+        ex_vals[e] = v
+        headers.append([b"BPM" + e, v.encode("ascii")])
+    for w in wav_ids:
+        headers.append([b"WAV" + w, enc(r.choice(["a.wav", "kick.ogg", "snare.wav", "ドラム.wav", "x y.wav"]))])
+    if r.random() < 0.5:
+        hd, tl = headers[:1], headers[1:]
+        r.shuffle(tl)
+        headers = hd + tl
+    obj_ids = wav_ids + [_id36(i) for i in r.sample(range(200, 400), 2)]  # some ids without a #WAV
+    lines = []
+    # notes: per lane a walk over positions
+    for ch in lanes:
+        if r.random() < 0.35:
+            continue
+        open_head = False
+        for m in range(n_meas):
+            if r.random() < 0.4:
+                continue
+            n_lines = r.choice([1, 1, 1, 2])
+            used: set = set()
+            for _ in range(n_lines):
+                n = r.choice(BMS_SUBDIV)
+                seq = [b"00"] * n
+                k = r.randint(1, max(1, min(n, 3)))
+                idxs = sorted(r.sample(range(n), min(k, n)))
+                for i in idxs:
+                    pos = Fraction(i, n)
+                    if pos in used:
+                        continue
+                    used.add(pos)
+                    seq[i] = r.choice(obj_ids)
+                lines.append([m, ch, seq, n])
+    # long notes: turn some objects into LNOBJ ends (in time order per lane: an end needs a preceding plain object)
+    if lnobj:
+        by_lane: dict = {}
+        for li, (m, ch, seq, n) in enumerate(lines):
+            for i, v in enumerate(seq):
+                if v != b"00":
+                    by_lane.setdefault(ch, []).append((Fraction(m) + Fraction(i, n), li, i))
+        for ch, lst in by_lane.items():
+            lst.sort()
+            prev_plain = False
+            for pos, li, i in lst:
+                if prev_plain and r.random() < 0.3:
+                    lines[li][2][i] = lnobj
+                    prev_plain = False
+                else:
+                    prev_plain = True
+    # tempo changes
+    tempo_divs = [1, 2, 4, 4, 8, 16, 3, 6, 12] + ([5, 7, 9, 11, 13] if odd_tempo_subdiv else [])
+    for _ in range(r.choice([0, 0, 1, 2, 3])):
+        m = r.randrange(n_meas)
+        n = r.choice(tempo_divs)
+        seq = [b"00"] * n
+        i = r.randrange(n)
+        if ex_ids and r.random() < 0.5:
+            seq[i] = r.choice(ex_ids)
+            lines.append([m, b"08", seq, n])
+        else:
+            seq[i] = ("%02X" % r.choice([60, 90, 120, 150, 180, 200, 240, 255, 30, 1])).encode("ascii")
+            lines.append([m, b"03", seq, n])
+    # dedupe tempo positions (two changes at one position are ambiguous)
+    seen = set()
+    keep = []
+    for ln in lines:
+        if ln[1] in (b"03", b"08"):
+            i = next(j for j, v in enumerate(ln[2]) if v != b"00")
+            pos = Fraction(ln[0]) + Fraction(i, ln[3])
+            if pos in seen:
+                continue
+            seen.add(pos)
+        keep.append(ln)
+    lines = keep
+    # ignored channels
+    for _ in range(r.choice([0, 1, 2])):
+        lines.append([r.randrange(n_meas), r.choice([b"01", b"01", b"04", b"07"]), [r.choice(obj_ids), b"00"], 2])
+    order = r.choice(["sorted", "sorted", "shuffled", "by_channel"])
+    if order == "sorted":
+        lines.sort(key=lambda x: (x[0], x[1]))
+    elif order == "by_channel":
+        lines.sort(key=lambda x: (x[1], x[0]))
+    else:
+        r.shuffle(lines)
+    return dict(headers=headers, lines=[[m, ch, b"".join(seq)] for m, ch, seq, n in lines]), layout
+
+
+def gen_bms_fmt(r: random.Random, knobs: dict) -> dict:
+    return dict(newline="lf" if knobs.get("stored_newline") == "lf" else "crlf", lead_comment=r.random() < 0.4,
+                blank_between=r.random() < 0.3)
